@@ -253,8 +253,19 @@ def c17c(ck, prog):
     def norm(d):
         return "Ready(Some)" if d.startswith("Ready{Some{pop_front") else "Ready(None)" if d.startswith("Ready{None") else "Pending" if d.startswith("Pending") else d
 
+    def prod_label(subject, lab):
+        """the producer's state a condition on the result of poll_queuing_future stands for"""
+        s_ = str(subject)
+        if "is_ready(" in s_ or "is_pending(" in s_:
+            truth = lab not in (0, "0", False)
+            if "is_pending(" in s_:
+                truth = not truth
+            return "Ready" if truth else "Pending"
+        return lab if isinstance(lab, str) else None
+
     for conds, val in rows:
-        prod = [c[1] for c in conds if isinstance(c[1], str) and "poll_queuing_future" in str(c[0])]
+        prod = [prod_label(c[0], c[1]) for c in conds if "poll_queuing_future" in str(c[0])]
+        prod = [x for x in prod if x is not None]
         pop = [c[1] for c in conds if isinstance(c[1], str) and "pop_front" in str(c[0])]
         d = (val or {}).get("desc", "?")
         out = {}
@@ -306,7 +317,8 @@ def c17c(ck, prog):
     # setup once, guarded
     s = [x for x in prog.fns.values() if x.name == "setup" and "QueueStream" in x.key][0]
     call = [c for c in s.calls() if re.search(r"FnOnce::call_once$", c.decl or "")]
-    ok = len(call) == 1 and paths.has_fact(s, prog, call[0].bb, lambda fa: fa.kind == "boolcall" and fa.truth and fa.call.name == "is_none" and "queue_ptr" in decision.describe_deep(s, fa.call.args[0], 3)) is not None
+    ok = len(call) == 1 and paths.has_fact(s, prog, call[0].bb, lambda fa: fa.kind == "boolcall" and ((fa.truth and fa.call.name == "is_none") or (not fa.truth and fa.call.name == "is_some"))
+                                            and "queue_ptr" in decision.describe_deep(s, fa.call.args[0], 3)) is not None
     ck.ob(R, "setup-once", ok, s.loc(None), "" if ok else "the producer closure can be started more than once / not under `queue_ptr.is_none()`", how="f(queue) only under proc.queue_ptr.is_none()")
     # WHO: pop_front is the only consumer, push_back the only producer
     cons = [(x.key, c.name) for x in prog.fns.values() if x.crate == "ohkami_lib" and "stream::impls" in x.key for c in x.calls() if re.search(r"VecDeque::<T, A>::(pop_front|pop_back|drain|clear|remove|truncate|swap_remove_back|swap_remove_front)$", c.callee or "")]
@@ -322,6 +334,6 @@ def c17d(ck, prog):
     ok = len(pin) == 1 and "new(" in decision.describe_deep(f, pin[0].args[0], 2) and paths.root_call(f, pin[0].args[0]) is not None and re.search(r"QueueStream(::)?<F, T, Fut>>?::new$", paths.root_call(f, pin[0].args[0]).callee or "")
     ck.ob(R, "DataStream::new", bool(ok), f.loc(None), "" if ok else "DataStream::new does not Box::pin the QueueStream it creates (its internal pointers would dangle when it moves)", how="Box::pin(QueueStream::new(..))")
     # the raw pointers are created only in setup and dereferenced only in Queue::push/add and poll_queuing_future
-    mk = [(x.name, c.name) for x in prog.fns.values() if x.crate == "ohkami_lib" and "stream::impls" in x.key for c in x.calls() if c.name == "new_unchecked" and "NonNull" in (c.callee or "")]
+    mk = [(x.name, c.name) for x in prog.fns.values() if x.crate == "ohkami_lib" and "stream::impls" in x.key for c in x.calls() if c.name in ("new_unchecked", "from", "new", "from_mut", "from_ref") and "NonNull" in (c.callee or "")]
     ok = bool(mk) and all(n == "setup" for n, _ in mk)
-    ck.ob(R, "pointers-made-in-setup", ok, "", "" if ok else "self-referential pointers are created outside setup(): %r" % mk, how="NonNull::new_unchecked only in setup (x%d)" % len(mk))
+    ck.ob(R, "pointers-made-in-setup", ok, "", "" if ok else "self-referential pointers are created outside setup(): %r" % mk, how="NonNull pointers are made only in setup (x%d)" % len(mk))
